@@ -110,7 +110,46 @@ class AllContentReceived(Contract):
     canaries = [("self._handlingRequest = True", "self._handlingRequest = False", "marked_handling_and_raw_before_dispatch")]
 
 
-CONTRACTS = [RequestDone, AllContentReceived]
+def notify_model(I, req, reason):
+    """Request.connectionLost as a call-out: counted, and it must be the queue's next request with the channel's reason"""
+    c = ctx()
+    g = c.ghost
+    k = g["notified"]
+    ok = band(core.veq(req, g["requests"][k]) if hasattr(core, "veq") else True, reason is g["reason"])
+    c.oblige("%s/callout/next-queued-request-notified-with-the-reason" % g["$contract"].name, ok, "callout")
+    g["notified"] = k + 1
+    c.emit("request.connectionLost", req, (reason,))
+
+
+class ConnectionLost(Contract):
+    """every queued request learns of the loss exactly once, whatever else is pending (seeded change C21-2)"""
+    prop = "C21"
+    module = M
+    function = "HTTPChannel.connectionLost"
+    differential = False
+    calls = dict(CALLS, **{"Request.connectionLost": notify_model})
+    inputs = dict(requests=RefList("Request"), aborting=ForkBool())
+    loops = {"HTTPChannel.connectionLost#0": LoopSpec(inv=lambda v: v.notified == v._i, ghost=("notified",))}
+
+    def setup(self, i):
+        abort_call = self.opaque("abortcall") if i.aborting else None
+        ch = self.make(http.HTTPChannel, requests=i.requests, _abortingCall=abort_call)
+        reason = self.opaque("reason")
+        return dict(self=ch, args=[reason], objs=dict(ch=ch), ghost=dict(notified=0, requests=i.requests, reason=reason))
+
+    def bounded_inputs(self, tier):
+        return iter(())
+
+    raises = ()
+    ensures = dict(
+        every_queued_request_notified_once=lambda S: S.ghost["notified"] == L(S.i.requests),
+        pending_abort_cancelled=lambda S: band(S.new.ch._abortingCall is None,
+                                                len([e for e in S.trace if e.name == "abortcall.cancel"]) == (1 if S.i.aborting else 0)),
+    )
+    canaries = [("for request in self.requests:", "for request in self.requests[:1]:", "every_queued_request_notified_once")]
+
+
+CONTRACTS = [RequestDone, AllContentReceived, ConnectionLost]
 BOUNDED = bounded("C21")
 _SCOPE = ('the real HTTPChannel / http.Request (bare and under server.Site) on a TCP-like transport double: every 2-way and boundary 3-way split of pipelines of up to 3 requests, every event script of deliver / write / finish / pause / resume / connection loss (loss injected at every event boundary), wire parsed by an independent RFC 7230 response parser')
 NOTES = dict(explanation="requestDone / allContentReceived proved for arbitrary buffered pipelined data; whole pipelines bounded: " + _SCOPE,
